@@ -8,11 +8,15 @@
 //! routes discovered from `console_config`, and every method of every data route that reaches a
 //! handler must be classified (exit 2 otherwise).
 
-use crate::catalogue::*;
-use crate::fixture::*;
-use crate::srv::*;
+pub mod catalogue;
+pub mod fixture;
+pub mod routes;
+pub mod srv;
+use crate::c18::catalogue::*;
+use crate::c18::fixture::*;
+use crate::c18::srv::*;
 use proptest::prelude::*;
-use rnv_engine::*;
+use crate::engine::*;
 use serde::{Deserialize, Serialize};
 use serde_json::{json, Value};
 use std::collections::{BTreeMap, BTreeSet};
@@ -265,7 +269,7 @@ fn stop_pool() {
 
 /// every discovered console API route is classified and every catalogue route exists
 fn cross_check_routes() -> Result<usize, String> {
-    let discovered = crate::routes::discover(rnacos::web_config::console_config)?;
+    let discovered = crate::c18::routes::discover(rnacos::web_config::console_config)?;
     for sentinel in ["/rnacos/api/console/v2/config/list", "/rnacos/api/console/cs/configs", "/rnacos/api/console/v2/mcp/server/publish/history"] {
         if !discovered.iter().any(|p| p == sentinel) {
             return Err(format!("route discovery self-test: sentinel {} not found among {} routes", sentinel, discovered.len()));
@@ -667,7 +671,9 @@ fn run_case_on(case: &Case, s: &mut Server) -> Result<CaseReport, String> {
         labels.push("nontrivial".into());
     }
 
-    let unknown: Vec<&Violation> = judged.violations.iter().filter(|v| known_root(ep, v.clause, named.is_some()).is_none()).collect();
+    // a shape is known only while known_findings.json lists its endpoint signature as open
+    let listed_open = open_signatures().contains(&format!("C18/{}", ep.sig()));
+    let unknown: Vec<&Violation> = judged.violations.iter().filter(|v| !listed_open || known_root(ep, v.clause, named.is_some()).is_none()).collect();
     let verdict = if judged.violations.is_empty() {
         Verdict::Pass
     } else if let Some(v) = unknown.first() {
@@ -681,6 +687,11 @@ fn run_case_on(case: &Case, s: &mut Server) -> Result<CaseReport, String> {
         Verdict::Known(format!("C18/{}", ep.sig()))
     };
     Ok(CaseReport { labels, nontrivial, verdict })
+}
+
+fn open_signatures() -> &'static std::collections::BTreeSet<String> {
+    static CELL: std::sync::OnceLock<std::collections::BTreeSet<String>> = std::sync::OnceLock::new();
+    CELL.get_or_init(|| open_findings("C18").into_iter().map(|k| k.signature).collect())
 }
 
 /// first example of every known shape hit in this run: signature -> (case, root cause, message)
